@@ -185,6 +185,21 @@ fn check_set<S, E>(ctx: &mut Ctx, ops: &SetOps<S, E>, pool: &[E], hist: &[usize]
         }
     };
     ensure!((ops.len)(&set) == model.len(), format!("sets/len/{}", name), "len() = {}; {}", (ops.len)(&set), desc(&model));
+    // a set that arrived decoded keeps being a set when the caller goes on adding: every pool element once more (those
+    // already in it must be refused, the others appended), in reverse pool order
+    let mut set = set;
+    if route != 0 {
+        for i in (0..pool.len()).rev() {
+            let was_new = !model.contains(&enc[i]);
+            let got = catch(|| (ops.add)(&mut set, &pool[i])).map_err(|p| Failure::new(format!("sets/add-panic/{}", name), p.msg))?;
+            if was_new {
+                model.push(enc[i].clone());
+            }
+            ensure!(got == was_new, format!("sets/add-after-decoding-return-value/{}", name), "add of pool element {} after the set was decoded returned {} but the element was {}; {}", i, got, if was_new { "new" } else { "already present" }, desc(&model));
+            ensure!((ops.len)(&set) == model.len(), format!("sets/len-after-add-after-decoding/{}", name), "len() = {} after adding pool element {} to the decoded set; {}", (ops.len)(&set), i, desc(&model));
+        }
+        ctx.label("history:adds-after-decoding");
+    }
     let bytes = catch(|| (ops.to_bytes)(&set)).map_err(|p| Failure::new(format!("sets/to_bytes-panic/{}", name), p.msg))?;
     let got = emitted_elements(name, &bytes)?;
     let mut uniq = got.clone();
